@@ -671,7 +671,16 @@ def rule_P11(ctx) -> None:
     # a conversion that yields a complete Python literal by itself (repr / !r) would also do
     whole = all(all((not isinstance(v, ast.FormattedValue)) or v.conversion == 114 for v in n.values) for n in lits) and False
     reps = []
-    for c in ast.walk(fn):
+    # the function together with the module-level helpers its text passes through (a per-line helper applied in a comprehension)
+    scope = [fn]
+    for _ in range(2):
+        for f_ in list(scope):
+            for c in ast.walk(f_):
+                if isinstance(c, ast.Call) and isinstance(c.func, ast.Name) and models.has(c.func.id) and any(isinstance(x, ast.FunctionDef) for x in models.get_all(c.func.id)):
+                    h_ = models.func(c.func.id)
+                    if all(h_ is not x for x in scope) and len(scope) < 6:
+                        scope.append(h_)
+    for c in [x for f_ in scope for x in ast.walk(f_)]:
         if isinstance(c, ast.Call) and isinstance(c.func, ast.Attribute) and c.func.attr == "replace" and len(c.args) == 2 and all(isinstance(a, ast.Constant) for a in c.args):
             reps.append((c.args[0].value, c.args[1].value))
     backslash = any(a == "\\" and b == "\\\\" for a, b in reps)
